@@ -16,6 +16,7 @@ import (
 	"path/filepath"
 	"strings"
 	"testing/fstest"
+	ht "html/template"
 	tt "text/template"
 	"time"
 
@@ -290,7 +291,7 @@ type PartSpec struct {
 	Enc     string      `json:"enc,omitempty"`
 	Charset string      `json:"charset,omitempty"`
 	Desc    string      `json:"desc,omitempty"`
-	Kind    string      `json:"kind,omitempty"` // string | writer (default writer)
+	Kind    string      `json:"kind,omitempty"` // string | tmpl (text/template for text/plain, html/template for text/html) | writer (default writer)
 	Content ContentSpec `json:"content"`
 }
 
@@ -300,7 +301,7 @@ type FileSpec struct {
 	Enc     string      `json:"enc,omitempty"` // "" (default base64) | base64 | 8bit | 7bit
 	Desc    string      `json:"desc,omitempty"`
 	CType   string      `json:"ctype,omitempty"`
-	Source  string      `json:"source,omitempty"` // writer (default) | reader | readseeker | fs
+	Source  string      `json:"source,omitempty"` // writer (default) | reader | readseeker | fs | file | tmpl | htmpl
 	Content ContentSpec `json:"content"`
 }
 
@@ -712,6 +713,24 @@ func BuildMsg(s MsgSpec, o BuildOpts) *Built {
 		}
 		ct := mail.ContentType(p.Type)
 		switch {
+		case p.Kind == "tmpl" && p.Type == "text/html":
+			// html/template escapes the data it is given; what the part carries is whatever the
+			// template produced at the time of the call, in every render
+			tpl, terr := ht.New("b").Parse("<p>{{.}}</p>\r\n")
+			fail(terr)
+			if i == 0 {
+				fail(m.SetBodyHTMLTemplate(tpl, string(p.Content.Data), popts...))
+			} else {
+				fail(m.AddAlternativeHTMLTemplate(tpl, string(p.Content.Data), popts...))
+			}
+		case p.Kind == "tmpl":
+			tpl, terr := tt.New("b").Parse("{{.}}")
+			fail(terr)
+			if i == 0 {
+				fail(m.SetBodyTextTemplate(tpl, string(p.Content.Data), popts...))
+			} else {
+				fail(m.AddAlternativeTextTemplate(tpl, string(p.Content.Data), popts...))
+			}
 		case i == 0 && p.Kind == "string":
 			m.SetBodyString(ct, string(p.Content.Data), popts...)
 		case i == 0:
@@ -791,6 +810,14 @@ func BuildMsg(s MsgSpec, o BuildOpts) *Built {
 				fail(m.EmbedTextTemplate(f.Name, tpl, string(f.Content.Data), fopts...))
 			} else {
 				fail(m.AttachTextTemplate(f.Name, tpl, string(f.Content.Data), fopts...))
+			}
+		case "htmpl":
+			tpl, terr := ht.New("t").Parse("<pre>{{.}}</pre>")
+			fail(terr)
+			if embed {
+				fail(m.EmbedHTMLTemplate(f.Name, tpl, string(f.Content.Data), fopts...))
+			} else {
+				fail(m.AttachHTMLTemplate(f.Name, tpl, string(f.Content.Data), fopts...))
 			}
 		case "fs":
 			fsys := faultFS{name: f.Name, p: pr, opens: new(int)}
